@@ -179,6 +179,8 @@ def strategy_(d, tier):
                 quiet=d.bool(0.7))
     if case["place"] in ("keyenv", "keyargv"):
         case["keyinc"] = d.weighted([(2, 0), (1, 1), (2, 2)])
+    if case["cwd"] and not case["outdir"]:
+        case["noout"] = d.bool(0.5)
     if d.bool(0.45):
         # a line-edited variant of the golden program (other addresses, distances, statement order)
         case["var"] = variants.ops_strategy(d)
@@ -223,7 +225,7 @@ def one_run(t, case, toks, d, tag):
     wd = d
     srcarg = name + ".asm"
     has_private = any(k.lower().endswith((".inc", ".asm", ".p", ".bin")) or "." not in k for k in t["extra"])
-    use_cwd = case["cwd"] and not t["extra"]
+    use_cwd = case["cwd"] and not [k for k in t["extra"] if not k.lower().endswith(".doc")]
     if use_cwd:
         os.makedirs(os.path.join(d, "srcdir"), exist_ok=True)
         os.makedirs(os.path.join(d, "elsewhere"), exist_ok=True)
@@ -269,9 +271,14 @@ def one_run(t, case, toks, d, tag):
             env["ASCMD"] = "@opts.key"
         else:
             argv.append("@opts.key")
-    argv += [srcarg] if early_out else [srcarg, "-o", outp, "-shareout", name + ".h"]
+    noout = bool(case.get("noout")) and use_cwd and not early_out and not case["outdir"]
+    if noout:
+        # no -o: the code file is named after the source and lies next to it, not in the working directory
+        argv += [srcarg]
+    else:
+        argv += [srcarg] if early_out else [srcarg, "-o", outp, "-shareout", name + ".h"]
     r = run.run(argv, wd, env=env, timeout=90, cpu=60)
-    p = run.read(wd, outp)
+    p = run.read(os.path.join(d, "srcdir"), name + ".p") if noout else run.read(wd, outp)
     reports = {}
     for root in {wd, d, os.path.join(d, "srcdir")}:
         if not os.path.isdir(root):
@@ -382,7 +389,7 @@ def fixed_cases(tier):
         if not any(x[0] in ("L", "l", "OLIST") for x in ops):
             ops.append(["L", None])
         out.append(dict(test=t, opts=ops, place=places[i % 4], lang=["C", "de_DE", "en_US"][i % 3], cwd=(i % 5 == 0),
-                        outdir=(i % 4 == 1), quiet=(i % 3 != 0), keyinc=(i // 4) % 3 if places[i % 4].startswith("key") else 0))
+                        outdir=(i % 4 == 1), quiet=(i % 3 != 0), noout=(i % 2 == 0), keyinc=(i // 4) % 3 if places[i % 4].startswith("key") else 0))
     # complete single-option coverage: every golden test with every report option on its own
     phase = engine.seed_from_env() % 2
     for i, t in enumerate(names):
